@@ -40,6 +40,8 @@ def families(tier):
         {'name': 'A5b', 'params': {'modes': ['ok', 'raise_before'], 'mut_paths': ['in/x', 'o/d/g', 'o/z']}, 'weight': 2},
         {'name': 'A6', 'params': {'kinds': ['is_dir', 'list_dir'], 'mut_paths': ['in/x', 'o/z']}, 'weight': 3},
         {'name': 'B2', 'params': {'mut_paths': [], 'hist': 'BBB'}, 'weight': 3},
+        # every query kind inside a failing (caught) build_file function, on its own fresh parent directory
+        {'name': 'B2', 'params': {'mut_paths': [], 'hist': 'BB', 'inner_kinds': ['get_size', 'exists', 'is_file', 'read_m', 'walk_bu', 'declare']}, 'weight': 2},
         {'name': 'B8', 'params': {'mut_paths': ['in/x', 'in/y', 'o/f']}, 'weight': 2},
         {'name': 'N3', 'params': {'hist': 'BBB', 'universe': UN3, 'kinds': ['is_dir', 'list_dir', 'exists'], 'roles': ['o', 'o/d', 'o/m'], 'mut_paths': []}, 'weight': 3},
     ]
